@@ -32,6 +32,18 @@ threads = {"C01", "C08", "C11", "C12"}
 extra = ""
 if rnd != "1":
     prev = avoid[pid][: int(rnd) - 1]
+    if int(rnd) >= 7:
+        # from round 7 on: one line per kept seed of this property (files + first sentence of its summary)
+        import glob, os
+        prev = []
+        for mf in sorted(glob.glob(f'/verif/seeded/{pid}-*/meta.json')):
+            try:
+                m = json.load(open(mf))
+            except Exception:
+                continue
+            sm = (m.get('summary') or '').replace('\n', ' ')
+            prev.append(f"[{', '.join(m.get('files_changed') or [])}] {sm[:160]}")
+        prev = ["\n  - " + x for x in prev]
     extra += f"\nEarlier, separate exercises already produced changes in: {'; '.join(prev)}. Choose a DIFFERENT function (preferably a different file) so that the changes are independent.\n"
     if pid in threads:
         extra += "For this property, strongly prefer a defect that only shows under a particular interleaving of the rayon worker threads (a dropped re-check after re-acquiring a lock, a lock released too early, state hoisted from task-local to shared, a stale snapshot, a thread-local scratch buffer that is not reset, ...), i.e. one that single-threaded execution of the same input never shows. If after a serious attempt no such change passes the existing tests, fall back to a sequential one.\n"
